@@ -176,6 +176,8 @@ def live_preamble(s, users, first=4, fund_peg=2000 * 10**8, rounds=3):
     for i, u in enumerate(users):
         m = MINERS[i % len(MINERS)]
         s.grade(h) if h not in s.blocks else None
+        if s.B(m, "PEG") < fund_peg:
+            raise ValueError("preamble: miner %s cannot fund %d (has %d); use more rounds or a smaller amount" % (m, fund_peg, s.B(m, "PEG")))
         s.transfer(h, m, "PEG", [(u, fund_peg)])
         if (i + 1) % len(MINERS) == 0:
             h += 1
@@ -199,7 +201,7 @@ def rich_chain(seed, name="rich", long=True):
     sched.update({"V202": 20, "OneWaySmall": 20, "V204": 24, "V204Burn": 27, "PIP10": 30})
     s = Scn(name, sched=sched, seed=seed, avg=4)
     users = [s.key("A%d" % i, "rcde" if i % 3 == 0 else "ed") for i in range(1, 7)]
-    h = live_preamble(s, users, fund_peg=rnd.choice([3000, 5000, 8000]) * 10**8)
+    h = live_preamble(s, users, fund_peg=rnd.choice([600, 900, 1200]) * 10**8)
     for u in users:
         b = s.B(u, "PEG")
         s.convert(h, u, "PEG", b // rnd.choice([3, 4, 5]), "pUSD")
@@ -236,4 +238,60 @@ def rich_chain(seed, name="rich", long=True):
         tip = 290
     s.tip(tip)
     s.s["assets"] = list(ASSETS)
+    return s
+
+
+def mixed_chain(seed, name="mixed", blocks=14, users=6, sched=None, unrated_p=0.25, assets=None, pip10=None,
+                burn_out=True, null_out=False, avg=4, start=None):
+    """Random traffic in the live era: transfers (1-3 outputs, some to the burn address), conversions
+    between pUSD/pXBT/pFCT/pDCR/PEG (admissible and not), multi-transaction batches, on a chain with
+    randomly unrated blocks. Returns the Scn."""
+    rnd = random.Random(seed * 31337 + 7)
+    sc = dict(sched or LIVE)
+    if pip10:
+        sc["PIP10"] = pip10
+    s = Scn(name, sched=sc, seed=seed, avg=avg, assets=assets)
+    us = [s.key("A%d" % i, "rcde" if rnd.random() < 0.25 else "ed") for i in range(1, users + 1)]
+    h = live_preamble(s, us, first=start or 4, fund_peg=rnd.choice([300, 900, 1200]) * 10**8)
+    for u in us:
+        b = s.B(u, "PEG")
+        s.entry(h, u, [{"t": "PEG", "amt": b // 3, "conv": "pUSD"}, {"t": "PEG", "amt": b // 5, "conv": "pXBT"}])
+        s.pending.append((u, "PEG", b // 3, "pUSD")); s.pending.append((u, "PEG", b // 5, "pXBT"))
+    s.grade(h); h += 1
+    s.grade(h); h += 1
+    dests = ["pUSD", "pXBT", "pFCT", "pDCR", "PEG"]
+    for _ in range(blocks):
+        rated = rnd.random() >= unrated_p
+        if rated:
+            drift = {"pXBT": RATES["pXBT"] + rnd.randint(-5, 5) * 10**9, "PEG": RATES["PEG"] + rnd.randint(-3, 3) * 10**4}
+            s.grade(h, rates=drift)
+        for u in us:
+            if rnd.random() < 0.55:
+                continue
+            kind = rnd.choice(["xfer", "xfer", "conv", "conv", "multi", "burn" if burn_out else "xfer", "null" if null_out else "xfer"])
+            t = rnd.choice(["PEG", "pUSD", "pXBT"])
+            bal = s.B(u, t)
+            amt = max(0, rnd.choice([bal // 2, bal // 3, bal, bal + 1, rnd.randint(0, max(1, bal))]))
+            if kind == "xfer":
+                n = rnd.randint(1, 3)
+                parts = [amt // n] * n
+                parts[0] += amt - sum(parts)
+                s.transfer(h, u, t, [(rnd.choice(us), p) for p in parts])
+            elif kind == "burn":
+                s.transfer(h, u, t, [("BURN", amt // 2), (rnd.choice(us), amt - amt // 2)])
+            elif kind == "null":
+                s.transfer(h, u, t, [("NULL", amt // 2), (rnd.choice(us), amt - amt // 2)])
+            elif kind == "conv":
+                d = rnd.choice([x for x in dests if x != t])
+                s.convert(h, u, t, amt, d, track=(d in ("pUSD", "pXBT") and not (d == "PEG")))
+            else:
+                d = rnd.choice(["pUSD", "pXBT"])
+                if d == t:
+                    d = "pUSD" if t != "pUSD" else "pXBT"
+                a1 = amt // 2
+                s.entry(h, u, [{"t": t, "amt": a1, "to": [(rnd.choice(us), a1)]}, {"t": t, "amt": amt - a1, "conv": d}])
+        h += 1
+    s.grade(h); h += 1
+    s.grade(h)
+    s.tip(h)
     return s
